@@ -114,3 +114,7 @@ bool vx_add_situation_root(size16_t state_idx, size32_t sit_idx, bool to_kernel)
 __CPROVER_requires(state_idx < state_count && sit_idx < situation_address_space_size && states__all_situations_vec[state_idx].current_size == 0 && states__all_situations_vec[state_idx].N == max_sit_count_per_state_cap)
 __CPROVER_assigns(g_root_added, g_root_item, states__all_situations_vec[state_idx])
 __CPROVER_ensures(g_root_added && g_root_item == sit_idx && to_kernel && states__all_situations_vec[state_idx].current_size == 1 && states__all_situations_vec[state_idx].the_data[0] == sit_idx && states__all_situations_vec[state_idx].N == __CPROVER_old(states__all_situations_vec[state_idx]).N);
+
+/* make_right_side_empty: the whole right side is the slice from 0 -- ghost record of the one call of make_right_side_slice_empty */
+unsigned g_sle_calls; const struct rule_info* g_sle_ri; size_t g_sle_start; bool g_sle_ret;
+static inline bool vx_slice_empty_rec(const struct rule_info* ri, size_t start) { if (g_sle_calls < 1000) g_sle_calls++; g_sle_ri = ri; g_sle_start = start; return g_sle_ret; }
